@@ -79,6 +79,9 @@ def task_fit(p, cells, variant, rational):
 
             def body(chk, ctx=ctx, nodes=nodes, nodes_eff=nodes_eff, m=m, label=label):
                 Z = [ctx.sym(x) for x in zn]
+                # history: an earlier fit on the same knot vector and nodes with OTHER weights must not influence this one
+                warm = chk.call(curves.Curve, list(U), None, None if W is not None else weights_for(n))
+                chk.call(warm.fit_points, [F(i) for i in range(m)], *([] if nodes is None else [list(nodes)]))
                 C = chk.call(curves.Curve, list(U), None, W)
                 if nodes is None:
                     chk.call(C.fit_points, Z)
